@@ -400,8 +400,11 @@ def build_strategy(bt, spec, spy_log=None):
             algos = [Spy()] + algos
         kids = [mk(k) for k in t.get("kids", [])]
         tick_children = list(t["tickers"] or [])
+        mult = spec.get("mult") or {}   # optional {ticker: multiplier}: such tickers are declared as Security objects (C18)
         if spec.get("eager"):
-            tick_children = [bt.Security(x) for x in tick_children]      # constructed up front instead of on first use
+            tick_children = [bt.Security(x, multiplier=mult.get(x, 1)) for x in tick_children]      # constructed up front instead of on first use
+        else:
+            tick_children = [bt.Security(x, multiplier=mult[x]) if x in mult else x for x in tick_children]
         children = kids + tick_children if (t.get("tickers") is not None) else (kids or None)
         if not children:
             children = None
